@@ -59,6 +59,7 @@ package internal
 //@   requires slot != nil
 //@   ensures [cleared] slot.Events == old(slot.Events) &^ PollerWriteEvent
 //@   ensures [count] p.pending == old(p.pending) - (old(armed(slot, PollerWriteEvent)) ? 1 : 0)
+//@   ensures [quiet] !old(armed(slot, PollerWriteEvent)) ==> result == nil
 //@   modifies p.pending, slot.Events
 
 //@ func (*poller).Del
@@ -66,6 +67,7 @@ package internal
 //@   requires slot != nil
 //@   ensures [cleared] slot.Events == old(slot.Events) &^ (PollerReadEvent | PollerWriteEvent)
 //@   ensures [count] p.pending == old(p.pending) - (old(armed(slot, PollerReadEvent)) ? 1 : 0) - (old(armed(slot, PollerWriteEvent)) ? 1 : 0)
+//@   ensures [quiet] !old(armed(slot, PollerWriteEvent)) ==> result == nil
 //@   modifies p.pending, slot.Events
 
 // Fields of the poller that are set once by NewPoller: their values survive call-outs to
@@ -149,6 +151,7 @@ package internal
 //@   assert call Handlers#2: !armed(slot, PollerWriteEvent)
 //@   ensures [timeout] n == 0 && timeoutMs >= 0 && err == nil ==> false
 //@   ensures [count] err == nil ==> n >= 0
+//@   ensures [inv] pInv(p)
 
 // internal.Poller has a single implementation on this platform.
 //@ devirtualize Poller poller
@@ -167,3 +170,59 @@ package internal
 //@ func SocketAddress
 //@   trusted
 //@   modifies nothing
+
+// --- timerfd based timer (C04, C03) ------------------------------------------------------------
+
+//@ immutable [C04,C03] Timer.fd Timer.poller constructors NewTimer
+
+//@ pred tiInv(t *Timer) = t.poller != nil && pInv(t.poller) && t.slot.Fd == t.fd && 0 <= t.fd
+
+//@ func ext:golang.org/x/sys/unix.NsecToTimespec
+//@   trusted
+//@   ensures result.Sec * 1000000000 + result.Nsec == nsec && 0 <= result.Nsec && result.Nsec < 1000000000
+//@   modifies nothing
+
+//@ func ext:golang.org/x/sys/unix.TimerfdSettime
+//@   trusted
+//@   modifies nothing
+
+//@ func fnparam:(*Timer).Set$1.cb
+//@   trusted
+//@   ensures pInv(t.poller)
+
+// The handler the poller dispatches when the timerfd is readable. The kernel's expiration
+// count is the oracle for "the delay has elapsed": a stale batch entry for a timer that was
+// cancelled and re-armed in the same poll cycle reads EAGAIN and must not run the callback.
+//@ func (*Timer).Set$1
+//@   prop C04
+//@   requires t != nil && tiInv(t) && cb != nil
+//@   remember after call syscall.Read: expired = (result0 == 8 && result1 == nil)
+//@   assert call cb: expired
+
+//@ func (*Timer).Unset
+//@   prop C04, C03
+//@   requires tiInv(t)
+//@   ensures [idle] !old(armed(&t.slot, PollerReadEvent)) ==> result == nil && t.slot.Events == old(t.slot.Events) && t.poller.pending == old(t.poller.pending)
+//@   ensures [disarmed] result == nil ==> !armed(&t.slot, PollerReadEvent)
+//@   ensures [failed] result != nil ==> t.slot.Events == old(t.slot.Events) && t.poller.pending == old(t.poller.pending)
+//@   ensures [count] result == nil && old(armed(&t.slot, PollerReadEvent)) ==> t.poller.pending < old(t.poller.pending)
+//@   // disarming stops the kernel timer first: expiration zero, interval zero
+//@   assert call TimerfdSettime: arg0 == t.fd && arg2.Value.Sec == 0 && arg2.Value.Nsec == 0 && arg2.Interval.Sec == 0 && arg2.Interval.Nsec == 0
+
+//@ func (*Timer).Set
+//@   prop C04, C03
+//@   requires tiInv(t) && cb != nil
+//@   // exactly the requested delay, one shot
+//@   assert call TimerfdSettime#2: arg0 == t.fd && arg2.Value.Sec * 1000000000 + arg2.Value.Nsec == int64(dur) &&
+//@          arg2.Interval.Sec == 0 && arg2.Interval.Nsec == 0
+//@   ensures [armed] result == nil ==> armed(&t.slot, PollerReadEvent) && t.slot.Handlers[0] != nil
+//@   ensures [count] result == nil && !old(armed(&t.slot, PollerReadEvent)) ==> t.poller.pending == old(t.poller.pending) + 1
+//@   ensures [failed] result != nil && !old(armed(&t.slot, PollerReadEvent)) ==> !armed(&t.slot, PollerReadEvent) && t.poller.pending == old(t.poller.pending)
+
+//@ func (*Timer).Close
+//@   prop C04, C13, C03
+//@   requires tiInv(t)
+//@   assert call syscall.Close: arg0 == t.fd
+//@   // whatever the kernel answers, a closed timer is not armed and not counted as pending
+//@   ensures [disarmed] !armed(&t.slot, PollerReadEvent)
+//@   ensures [count] t.poller.pending == old(t.poller.pending) - (old(armed(&t.slot, PollerReadEvent)) ? 1 : 0) - (old(armed(&t.slot, PollerWriteEvent)) ? 1 : 0)
